@@ -237,6 +237,65 @@ def stepLine (_ : Unit) (toks : List String) : Unit × Option Verdict :=
       pure { agree := m == (os, oe), spec := if Spec.envOK nm h p nc (os, oe) then "ok" else "FAIL",
              nontrivial := nm.isSome, branches := errName m.2 ++ (match m.1 with | some s => "," ++ (renderSampler s).take 1 | none => ",nil"),
              model := (match m.1 with | some s => renderSampler s | none => "-") ++ " " ++ errName m.2 }
+    | ["prov", _, name, ha, pf, nanc, optTok] => do
+      let nm ← if name == "-" then some none else (parseHex name).map some
+      let h ← parseBool ha
+      let p ← if pf == "err" then some PF.err else (parseF pf).map PF.val
+      let nc ← parseNat nanc
+      let parseOpt (t : String) : Option (Option Sampler) :=
+        if t == "nil" then some none
+        else if t == "A" then some (some .always)
+        else if t == "N" then some (some .never)
+        else if t == "PA" then some (some (parentBasedDefault .always))
+        else if t == "PN" then some (some (parentBasedDefault .never))
+        else if t.startsWith "PR" then (parseF ((t.drop 2).toString)).map fun b => some (parentBasedDefault (traceIDRatioBased b nc))
+        else if t.startsWith "R" then (parseF ((t.drop 1).toString)).map fun b => some (traceIDRatioBased b nc)
+        else none
+      let opts ← if optTok == "-" then some [] else (optTok.splitOn ";").mapM parseOpt
+      let (os, oh) ← match obs with
+        | [s, e] => do
+          let s' ← match parseStruct 64 (s.splitOn ",") with
+            | some (x, []) => some x
+            | _ => none
+          pure (s', ← parseBool e)
+        | _ => none
+      let env := samplerFromEnv nm h p nc
+      let m := providerSampler env opts
+      -- the oracle resolves the environment through the independent table (Spec.envRef), not through the model
+      let (re, rerr) := Spec.envRef nm h p
+      let envRef : Option Sampler × EnvErr := (re.map (Spec.shape nc), rerr)
+      let lastSome := (opts.reverse.find? (·.isSome)).isSome
+      pure { agree := m == (os, oh), spec := if Spec.providerOK envRef opts (os, oh) then "ok" else "FAIL",
+             nontrivial := nm.isSome || !opts.isEmpty,
+             branches := (if lastSome then "option" else if env.1.isSome then "env" else "default") ++
+                         (if opts.contains none then ",nil-option" else "") ++ (if m.2 then ",env-error" else "") ++
+                         (if lastSome && env.1.isSome then ",option-over-env" else ""),
+             model := renderSampler m.1 ++ " " ++ (if m.2 then "1" else "0") }
+    | ["sparams", _, kind, name, cfgT, nl, dec, saT] => do
+      let parseAttrs (t : String) : Option (List (Nat × Int)) :=
+        if t == "-" then some [] else (t.splitOn ";").mapM fun e =>
+          match e.splitOn "=" with
+          | [k, v] => do pure (← k.toNat?, ← v.toInt?)
+          | _ => none
+      let k ← parseNat kind
+      let nm ← parseHex name
+      let cfg ← parseAttrs cfgT
+      let n ← parseNat nl
+      let d ← parseNat dec
+      let sa ← parseAttrs saT
+      let (sn, sk, sat, sl, rec, spk, att) ← match obs with
+        | [a, b, c, e, f, g, h] => do
+          pure (← parseHex a, ← parseNat b, ← parseAttrs c, ← parseNat e, ← parseBool f, ← parseNat g, ← parseAttrs h)
+        | _ => none
+      let m := startParams k nm cfg n d sa
+      let o : SPOut := ⟨sn, sk, sat, sl, rec, spk, att⟩
+      let overlap := sa.any fun a => cfg.any (·.1 == a.1)
+      pure { agree := m == o, spec := if Spec.startParamsOK k nm cfg n d sa sn sk sat sl rec spk att then "ok" else "FAIL",
+             nontrivial := !cfg.isEmpty || !sa.isEmpty || k != 0,
+             branches := (if m.recording then "recording" else "dropped") ++ (if overlap then ",key-overlap" else "") ++
+                         (if k == 0 || k > 5 then ",kind-invalid" else ",kind-valid") ++ (if n > 0 then ",links" else "") ++
+                         (if sa.isEmpty then "" else ",sampler-attrs"),
+             model := "=" }
     | _ => none
   ((), r)
 
